@@ -415,20 +415,27 @@ fn gen(rng: &mut Rng, n: usize) -> Vec<Case> {
             out.push(vec![tag("dec"), num(1 + len % 3), l.bytes]);
         }
     }
-    // real git scenarios (prop only)
-    let n_gitx = (n / 60).max(8);
-    for _ in 0..n_gitx {
-        out.push(vec![tag("gitx"), num(rng.next() % 1_000_000_007), num(*rng.pick(&[2, 3, 4, 4])), num(*rng.pick(&[1, 2, 3, 4, 8]))]);
-    }
+    // real git scenarios (prop only), spread over the stream so that parallel shards share them
+    let n_gitx = (n / 60).max(8).min(160);
+    let every = (n.saturating_sub(out.len()) / n_gitx).max(1);
+    let mut k = 0usize;
     while out.len() < n {
-        let l = gen_index(rng);
-        let k = pick_threads(rng);
-        if rng.chance(7, 10) {
-            out.push(vec![tag("dec"), num(k), l.bytes]);
+        if k % every == 0 && k / every < n_gitx {
+            let seed = rng.next() % 1_000_000_007;
+            let version = *rng.pick(&[2, 3, 4, 4]);
+            let threads = *rng.pick(&[1, 2, 3, 4, 8]);
+            out.push(vec![tag("gitx"), num(seed), num(version), num(threads)]);
         } else {
-            let m = mutate(rng, &l);
-            out.push(vec![tag("dec"), num(k), m]);
+            let l = gen_index(rng);
+            let t = pick_threads(rng);
+            if rng.chance(7, 10) {
+                out.push(vec![tag("dec"), num(t), l.bytes]);
+            } else {
+                let m = mutate(rng, &l);
+                out.push(vec![tag("dec"), num(t), m]);
+            }
         }
+        k += 1;
     }
     out.truncate(n.max(1));
     out
